@@ -96,7 +96,8 @@ def run(ctx):
     ctx.assumptions += ["the caller's fact store persists across queries (facts derived by an earlier successful query stay in it); the fresh "
                         "engine gets a copy of that same store, as the statement prescribes",
                         "one persistent engine per configuration (depth, strategy): configuration is something an answer may depend on",
-                        "the variant with an attached IncrementalEngine is not exercised (see DESIGN.md)"]
+                        "RETE-attached queries (query_with_rete_engine) share one IncrementalEngine; rretract retracts the k-th most recent "
+                        "live fact there; the fresh-engine oracle is built without a RETE engine"]
     return c.finish(ctx, "model_checking")
 
 
